@@ -132,17 +132,29 @@ def claimed():
     m = json.load(open(os.path.join(VERIF, "MANIFEST.json")))
     return sorted(c["property_id"] for c in m["checks"])
 
-def run_one(seed, prop):
+def run_seed(seed, props):
+    """one scratch copy, one load, every check (slimlint -props)"""
     patch = os.path.join(SEEDED, seed, "patch.diff")
-    p = subprocess.run([os.path.join(VERIF, "bin", "mutcheck"), patch, prop], capture_output=True, text=True)
+    env = dict(os.environ, MUTLINES="400")
+    p = subprocess.run([os.path.join(VERIF, "bin", "mutcheck"), patch] + props, capture_output=True, text=True, env=env)
     out = p.stdout + p.stderr
-    rules = sorted({ln.split(" ")[1].rstrip(":") for ln in out.splitlines() if ("[violated/" in ln or "[undecided/" in ln) and len(ln.split(" ")) > 1})
-    status = "silent"
-    if "VIOLATION property=" in out:
-        status = "VIOLATION"
-    elif "ERROR" in out or "SKIP" in out:
-        status = "error"
-    return seed, prop, status, rules
+    res = {}
+    cur = None
+    glob_err = "SKIP" in out or ("ERROR: cannot load" in out)
+    for ln in out.splitlines():
+        if ln.startswith("--- C") and " exit=" in ln:
+            cur = ln.split()[1]
+            res[cur] = ["silent", set()]
+            continue
+        if cur is None:
+            continue
+        if "VIOLATION property=" in ln:
+            res[cur][0] = "VIOLATION"
+        elif ln.startswith("ERROR") and res[cur][0] != "VIOLATION":
+            res[cur][0] = "error"
+        if ("[violated/" in ln or "[undecided/" in ln) and len(ln.split(" ")) > 1:
+            res[cur][1].add(ln.split(" ")[1].rstrip(":"))
+    return seed, {q: (("error", []) if (glob_err or q not in res) else (res[q][0], sorted(res[q][1]))) for q in props}
 
 def main():
     args = sys.argv[1:]
@@ -156,10 +168,10 @@ def main():
     cl = claimed()
     results = {}
     with cf.ThreadPoolExecutor(max_workers=jobs) as ex:
-        futs = [ex.submit(run_one, s, p) for s in seeds for p in cl]
+        futs = [ex.submit(run_seed, s, cl) for s in seeds]
         for f in cf.as_completed(futs):
-            s, p, st, rules = f.result()
-            results.setdefault(s, {})[p] = (st, rules)
+            s, r = f.result()
+            results[s] = r
     rows = []
     for s in seeds:
         prop = s.split("_")[0]
